@@ -37,6 +37,21 @@ def S(*pairs):
     return ("S", frozenset(pairs))
 
 
+def is_root_ty(ty):
+    """types whose storage a returned slice may point into: slices, str, arrays, CStr (by reference or by value field)"""
+    t = ty.strip()
+    if is_slice_ty(t):
+        return True
+    if t.startswith("&"):
+        t = t[1:].strip()
+        if t.startswith("'"):
+            t = t.split(" ", 1)[1] if " " in t else ""
+        if t.startswith("mut "):
+            t = t[4:]
+    t = t.strip()
+    return t.startswith("[") or t == "core::ffi::CStr" or t == "std::ffi::CStr"
+
+
 def is_slice_ty(ty):
     t = ty.strip()
     if not t.startswith("&"):
@@ -138,7 +153,13 @@ def _show_root(r):
     return str(r)
 
 
+RAW_PARTS = {"core::slice::from_raw_parts", "core::slice::raw::from_raw_parts", "core::slice::from_raw_parts_mut",
+             "core::slice::raw::from_raw_parts_mut", "core::ptr::slice_from_raw_parts_mut", "core::ptr::slice_from_raw_parts"}
 STD_SAME = {
+    "core::ffi::CStr::as_ptr", "core::ffi::c_str::CStr::as_ptr", "core::ptr::const_ptr::<impl *const T>::cast",
+    "core::ptr::mut_ptr::<impl *mut T>::cast", "core::ptr::const_ptr::<impl *const T>::add", "core::ptr::mut_ptr::<impl *mut T>::add",
+    "core::ptr::const_ptr::<impl *const T>::offset", "core::ptr::mut_ptr::<impl *mut T>::offset",
+    "core::array::<impl [T; N]>::as_ptr", "core::array::<impl [T; N]>::as_mut_ptr", "core::array::<impl [T; N]>::as_slice",
     "core::str::<impl str>::as_bytes", "core::str::from_utf8_unchecked", "core::str::converts::from_utf8_unchecked",
     "konst_kernel::string::__from_u8_subslice_of_str", "core::str::from_utf8_unchecked_mut",
     "core::slice::<impl [T]>::as_ptr", "core::slice::<impl [T]>::as_mut_ptr", "core::str::<impl str>::as_ptr",
@@ -178,9 +199,12 @@ class Prov:
         return v
 
     def callee_summary(self, callee, argvals):
-        path = strip_generics(callee["path"])
+        path = sym.core_path(strip_generics(callee["path"]))
         if path in STD_SAME:
             return argvals.get(1)
+        if path in RAW_PARTS:
+            # some sub-range of whatever the pointer was derived from (in-bounds-ness is the RAW obligation)
+            return apply_kind(argvals.get(1), MIDDLE)
         if path in STD_RESULT_OK:
             return ("A", (((0, 0), argvals.get(1)),))
         b = self.prog.by_raw(callee["raw"])
@@ -205,10 +229,10 @@ class Prov:
         k = t[0]
         if k == "p":
             ty = self._cur.local_ty(t[1]) if self._cur is not None and t[1] < len(self._cur.locals) else "&[T]"
-            if is_slice_ty(ty):
+            if is_root_ty(ty):
                 return S((("p", t[1]), WHOLE))
             return ("A", ((("__param__", t[1]), None),))
-        if k in ("as_bytes", "utf8_unchecked", "as_ptr", "as_mut_ptr"):
+        if k in ("as_bytes", "utf8_unchecked", "as_ptr", "as_mut_ptr", "ptr_add"):
             return self.classify_term(t[1])
         if k == "lit":
             return S(("static-empty", WHOLE)) if len(t[1]) == 0 else S(("static", WHOLE))
@@ -219,7 +243,9 @@ class Prov:
         if k in ("raw_parts", "raw_parts_mut"):
             v = views.view(t)
             if v is None or v[0] != "view":
-                return TOP
+                # pointer not of the as_ptr(+offset) form: still a sub-range of whatever it was derived from
+                base = self.classify_term(t[1])
+                return apply_kind(base, MIDDLE) if base is not None else TOP
             base = self.classify_term(v[1])
             off, cnt = v[2], v[3]
             ln = sym.mk_len(v[1])
@@ -250,8 +276,11 @@ class Prov:
         if k == "call":
             path = t[1]
             args = {i + 1: self.classify_term(a) for i, a in enumerate(t[3:])}
+            path = sym.core_path(path)
             if path in STD_SAME:
                 return args.get(1)
+            if path in RAW_PARTS:
+                return apply_kind(args.get(1), MIDDLE)
             if path in STD_RESULT_OK:
                 return ("A", (((0, 0), args.get(1)),))
             c = self.prog.by_key.get(path, [])
@@ -284,7 +313,7 @@ class Prov:
     # ---- per-body dataflow -----------------------------------------------------
     def _param_val(self, body, l):
         ty = body.local_ty(l)
-        if is_slice_ty(ty):
+        if is_root_ty(ty):
             return S((("p", l), WHOLE))
         return ("PARAM", l)
 
@@ -308,7 +337,7 @@ class Prov:
                 variant = None
                 if root_path is not None:
                     root_path = root_path + (key,)
-                    if is_slice_ty(pe.get("ty", "")):
+                    if is_root_ty(pe.get("ty", "")):
                         return S((("p", root_path[0]) + root_path[1:], WHOLE))
                     continue
                 v = agg_get(v, key)
@@ -517,6 +546,11 @@ _orig_agg_get = agg_get
 
 
 def agg_get(v, key):  # noqa: F811  (extends the earlier definition with param fall-back)
+    if v is not None and v != TOP and v[0] == "S" and len(v[1]) == 1:
+        # projecting further into a parameter-rooted aggregate (e.g. the payload of an `Option<&[T]>` field)
+        (r, k), = tuple(v[1])
+        if isinstance(r, tuple) and r[0] == "p" and k == WHOLE:
+            return S((r + (key,), WHOLE))
     if v is not None and v != TOP and v[0] == "A":
         d = dict(v[1])
         pl = [k[1] for k in d if k[0] == "__param__"]
